@@ -48,6 +48,17 @@ def feasibleClosed (i : Inst) (as : List Nat) : Bool :=
   (List.range i.n).all (fun k => as.count (k + 1) == 1) &&
   routesOk i 0 (routes as).dropLast
 
+/-- executable form of the documented pruning (cf. `Rl4co.Svrp.Canonical`): technician `k` is sent home
+without a customer (`atDepot` and the next action is the depot) only if he can serve none of the
+customers still to come -/
+def canonFromB (i : Inst) : Nat → Bool → List Nat → Bool
+  | _, _, [] => true
+  | k, atDepot, a :: as =>
+    (!(a == 0 && atDepot) || as.all (fun j => j == 0 || !decide (i.skills j ≤ i.techs k))) &&
+    canonFromB i (if a = 0 then k + 1 else k) (a == 0) as
+
+def canonical (i : Inst) (as : List Nat) : Bool := canonFromB i 0 true as && as.contains 0
+
 /-- cost-weighted length of routes driven by technicians `k, k+1, …` -/
 def weighted (i : Inst) : Nat → List (List Nat) → Int
   | _, [] => 0
